@@ -300,6 +300,30 @@ theorem specWrite_ok {σ : Schema} {s s' : St} {id : Bytes} {e : EntA} (ic : Boo
   have hlk : s'.as.lookup id = some e := by rw [has, Map.lookup_insert]; simp only [if_true]
   rw [findSome_none _ _ (specCheck_none ic old hI' hlk)]
 
+/-- an entity that satisfies the child-declared part of the invariant passes the rules of the fks declared
+    by child store `c` -/
+theorem specCheckChild_none {σ : Schema} {s' : St} {id : Bytes} {e : EntA} (c : Child) (ic : Bool) (om og : Bytes)
+    (hM' : CInv σ s') (he : s'.as.lookup id = some e) : specCheckChild σ c ic om og (absSt s') e = none := by
+  have hm : evalVal (mentorOf σ c e) ≠ [] → s'.bs.contains (evalVal (mentorOf σ c e)) = true := hM'.menT c id e he
+  have hg : evalVal (guardOf σ c e) ≠ [] → s'.bs.contains (evalVal (guardOf σ c e)) = true := hM'.guardT c id e he
+  have h1 : ¬ (σ.idx c = true ∧ ¬ (¬ ic = true ∧ om = evalVal (mentorOf σ c e)) ∧ evalVal (mentorOf σ c e) ≠ [] ∧
+      ¬ (absSt s').bs.contains (evalVal (mentorOf σ c e)) = true) := by
+    rintro ⟨_, _, h3, h4⟩; exact h4 (hm h3)
+  have h2 : ¬ (σ.fk c = true ∧ ¬ (¬ ic = true ∧ og = evalVal (guardOf σ c e)) ∧ evalVal (guardOf σ c e) ≠ [] ∧
+      ¬ (absSt s').bs.contains (evalVal (guardOf σ c e)) = true) := by
+    rintro ⟨_, _, h3, h4⟩; exact h4 (hg h3)
+  unfold specCheckChild
+  simp only
+  rw [if_neg h1, if_neg h2]
+
+theorem specWriteC_ok {σ : Schema} {s s' : St} {id : Bytes} {e : EntA} (c : Child) (ic : Bool) (old : Olds) (om og : Bytes)
+    (hI' : Inv σ s') (hM' : CInv σ s') (has : s'.as = s.as.insert id e) (hbs : s'.bs = s.bs) :
+    specWriteC σ c ic old om og (absSt s) id e = .ok (absSt s') := by
+  unfold specWriteC
+  rw [specWrite_ok ic old hI' has hbs]
+  have hlk : s'.as.lookup id = some e := by rw [has, Map.lookup_insert]; simp only [if_true]
+  simp only [specCheckChild_none c ic om og hM' hlk]
+
 theorem spec_agrees_deleteA {σ : Schema} {s s' : St} {id : Bytes} (hI : Inv σ s)
     (h : apply σ s (.deleteA id) = .ok s') :
     ∃ ss', specApply σ (absSt s) (.deleteA id) = .ok ss' ∧ TEq ss'.as s'.as ∧ TEq ss'.bs s'.bs := by
@@ -326,8 +350,10 @@ theorem spec_agrees_deleteA {σ : Schema} {s s' : St} {id : Bytes} (hI : Inv σ 
 
 /-- **refinement on success**: from a state satisfying the invariant, whenever the model's operation
     succeeds the spec's operation succeeds too and yields the same entity tables (same `lookup`s) -/
-theorem spec_agrees_on_success {σ : Schema} {s s' : St} (op : Op) (hI : Inv σ s) (h : apply σ s op = .ok s') :
+theorem spec_agrees_on_success {σ : Schema} {s s' : St} (op : Op) (hF : FullInv σ s) (h : apply σ s op = .ok s') :
     ∃ ss', specApply σ (absSt s) op = .ok ss' ∧ TEq ss'.as s'.as ∧ TEq ss'.bs s'.bs := by
+  have hI : Inv σ s := hF.1
+  have hF' : FullInv σ s' := apply_full op hF h
   cases op with
   | createB id =>
     simp only [apply, createB] at h
@@ -341,7 +367,7 @@ theorem spec_agrees_on_success {σ : Schema} {s s' : St} (op : Op) (hI : Inv σ 
         refine ⟨{ absSt s with bs := s.bs.insert id () }, ?_, fun _ => rfl, fun _ => rfl⟩
         simp [specApply, absSt, hid, hc]
   | createA id e =>
-    obtain ⟨hI', has, hbs⟩ := createA_inv hI h
+    obtain ⟨hI', has, hbs, _⟩ := createA_inv hI h
     simp only [apply, createA] at h
     split at h
     · cases h
@@ -358,7 +384,7 @@ theorem spec_agrees_on_success {σ : Schema} {s s' : St} (op : Op) (hI : Inv σ 
         rw [if_neg this]
         exact specWrite_ok true {} hI' has hbs
   | updateA id e mo mb md =>
-    obtain ⟨hI', hbs, cur, hcur, has⟩ := updateA_inv hI h
+    obtain ⟨hI', hbs, cur, hcur, has, _⟩ := updateA_inv hI h
     simp only [apply, updateA] at h
     split at h
     · cases h
@@ -370,27 +396,30 @@ theorem spec_agrees_on_success {σ : Schema} {s s' : St} (op : Op) (hI : Inv σ 
       exact specWrite_ok false _ hI' has hbs
   | deleteA id => exact spec_agrees_deleteA hI h
   | deleteC id => exact spec_agrees_deleteA (id := id) hI h
-  | createC id e tag =>
-    obtain ⟨hI', has, hbs, hid, hnoext⟩ := createC_inv hI h
+  | createC c id e x =>
+    obtain ⟨hI', has, hbs, hid, hnoext, _⟩ := createC_inv hI h
     refine ⟨absSt s', ?_, fun _ => rfl, fun _ => rfl⟩
-    simp only [specApply]
-    have : ¬ (id = [] ∨ hasChild (absSt s).as id = true) := by
-      rintro (h1 | h1)
-      · exact hid h1
-      · simp only [hasChild, absSt] at h1
-        cases hl : s.as.lookup id with
-        | none => simp [hl] at h1
-        | some cur => simp [hl, hnoext cur hl] at h1
-    rw [if_neg this]
-    exact specWrite_ok true {} hI' has hbs
-  | updateC id e tag mo mb md mt =>
-    obtain ⟨hI', hbs, hid, cur, curTag, hcur, hx, has⟩ := updateC_inv hI h
+    simp only [specApply, if_neg hid]
+    cases hl : s.as.lookup id with
+    | none =>
+      have : (absSt s).as.lookup id = none := hl
+      rw [this]
+      simp only [createdEnt, hl] at has
+      exact specWriteC_ok c true {} [] [] hI' hF'.2 has hbs
+    | some cur =>
+      have : (absSt s).as.lookup id = some cur := hl
+      rw [this]
+      simp only [hnoext cur hl, Option.isSome_none, Bool.false_eq_true, if_false]
+      simp only [createdEnt, hl] at has
+      exact specWriteC_ok c true {} [] [] hI' hF'.2 has hbs
+  | updateC c id e x mo mb md mt mm mg =>
+    obtain ⟨hI', hbs, hid, cur, cx, hcur, hx, has, _⟩ := updateC_inv hI h
     refine ⟨absSt s', ?_, fun _ => rfl, fun _ => rfl⟩
     simp only [specApply, if_neg hid]
     have : (absSt s).as.lookup id = some cur := hcur
     rw [this]
     simp only [hx]
-    exact specWrite_ok false _ hI' has hbs
+    exact specWriteC_ok c false _ _ _ hI' hF'.2 has hbs
   | deleteB b =>
     obtain ⟨hbs, hsub, hiff⟩ := deleteB_exact σ s s' b hI h
     obtain ⟨hb, _⟩ := deleteB_succ_ok hI h
@@ -475,6 +504,32 @@ theorem spec_agrees_on_success {σ : Schema} {s s' : St} (op : Op) (hI : Inv σ 
       intro ss hss
       simp only [specDeleteB, hss, ne_eq, not_true_eq_false, if_false]
     have okb : ∀ (a : SSt) (f : SSt → SRes), (Except.ok a >>= f) = f a := fun _ _ => rfl
+    -- after the delete `b` is gone, so (targets exist) nothing refers to it through a child-declared fk
+    have hbgone : s'.bs.contains b = false := by
+      cases hc : s'.bs.contains b with
+      | false => rfl
+      | true =>
+        obtain ⟨v, hv⟩ := (Map.contains_iff _ _).1 hc
+        rw [hbs] at hv; simp at hv
+    have hnochild : (specChildRestrict σ T1 b .c1 || specChildRestrict σ T1 b .c2) = false := by
+      have key : ∀ c, specChildRestrict σ T1 b c = false := by
+        intro c
+        have h1 : specReferrers T1 (mentorOf σ c) b = [] := by
+          rw [specReferrers_nil_iff]
+          intro k e he hf
+          rw [hT1 k] at he
+          have := hF'.2.menT c k e he (by simp [evalVal, hf, hbne])
+          simp only [evalVal, hf, Option.getD_some] at this
+          rw [hbgone] at this; cases this
+        have h2 : specReferrers T1 (guardOf σ c) b = [] := by
+          rw [specReferrers_nil_iff]
+          intro k e he hf
+          rw [hT1 k] at he
+          have := hF'.2.guardT c k e he (by simp [evalVal, hf, hbne])
+          simp only [evalVal, hf, Option.getD_some] at this
+          rw [hbgone] at this; cases this
+        simp [specChildRestrict, h1, h2]
+      simp [key]
     refine ⟨{ as := T1, bs := s.bs.erase b }, ?_, hT1, fun k => by simp [hbs]⟩
     simp only [specApply]
     have hcb : (absSt s).bs.contains b = true := hb
@@ -484,10 +539,10 @@ theorem spec_agrees_on_success {σ : Schema} {s s' : St} (op : Op) (hI : Inv σ 
     case true =>
       simp only [if_true, List.foldlM_cons, List.foldlM_nil]
       rw [hdepstep (absSt s) rfl, okb, hownstep _ hownT1, okb]
-      rfl
+      simp only [pure, Except.pure, bind, Except.bind, hnochild, Bool.false_eq_true, if_false, absSt]
     case false =>
       simp only [Bool.false_eq_true, if_false, List.foldlM_cons, List.foldlM_nil]
       rw [hownstep (absSt s) (hnoown hdf), okb, hdepstep (absSt s) rfl, okb]
-      rfl
+      simp only [pure, Except.pure, bind, Except.bind, hnochild, Bool.false_eq_true, if_false, absSt]
 
 end StorageModel.C04
